@@ -18,7 +18,9 @@ RULE = ('ALL formulas of depth <= 2 over {p, q} with ~ /\\ \\/ => <=> -X --X '
         'lassos with |stem|+|loop| <= 3: exactly one periodic valuation '
         'satisfies trans everywhere and every win condition infinitely '
         'often, and under it the translated formula has the future '
-        'semantics. evaluations = (formula, trace) pairs; non-trivial = '
+        'semantics; formulas of depth <= 2 that MIX past and future operators '
+        '(~ -X --X -<> <> [] \\/ S U) on the same lassos with three passes of '
+        'the loop unrolled. evaluations = (formula, trace) pairs; non-trivial = '
         'formula contains a past/future operator; distinct = formula')
 ASSUMPTIONS = [
     'strings produced by omega (init, trans, translated formula) are parsed '
@@ -88,7 +90,32 @@ def shards(tier, seed):
     for lo in range(0, n, CHUNK):
         out.append(dict(kind='until', lo=lo, hi=lo + CHUNK, tier=tier,
                         seed=seed))
+    n = len(_mixed_formulas())
+    for lo in range(0, n, 60):
+        out.append(dict(kind='mixed', lo=lo, hi=lo + 60, tier=tier,
+                        seed=seed))
     return out
+
+
+MIX_UN = ['~', '-X', '--X', '-<>', '<>', '[]']
+MIX_BIN = ['\\/', 'S', 'U']
+
+
+def _mixed_formulas():
+    """Past and future operators in one formula (translate(until=True))."""
+    fs = pl.formulas(['p', 'q'], 2, MIX_UN, MIX_BIN)
+
+    def kinds(t, acc):
+        if isinstance(t, str):
+            return acc
+        if t[0] in ('-X', '--X', '-<>', 'S'):
+            acc.add('past')
+        if t[0] in ('<>', '[]', 'U'):
+            acc.add('fut')
+        for x in t[1:]:
+            kinds(x, acc)
+        return acc
+    return [f for f in fs if kinds(f, set()) == {'past', 'fut'}]
 
 
 def cases(shard):
@@ -103,6 +130,9 @@ def cases(shard):
     elif shard['kind'] == 'int':
         for f in INT_FORMS:
             yield dict(kind='past', tree=f, length=4, ints=True)
+    elif shard['kind'] == 'mixed':
+        for f in _mixed_formulas()[shard['lo']:shard['hi']]:
+            yield dict(kind='mixed', tree=f)
     else:
         fs = pl.formulas(['p', 'q'], 2, FUT_UN, FUT_BIN)
         for f in fs[shard['lo']:shard['hi']]:
@@ -119,6 +149,8 @@ def run_case(case, acc):
     tree = _tupled(case['tree'])
     if case['kind'] == 'until':
         return run_until(case, tree, acc)
+    if case['kind'] == 'mixed':
+        return run_mixed(case, tree, acc)
     run_past(case, tree, acc)
 
 
@@ -300,3 +332,161 @@ def run_until(case, tree, acc):
                                               position=j))
                         return
     acc.ev(dict(f=s, u=1), nontrivial=_has_temporal(tree), n=n)
+
+
+def _solutions(word, nstem, auxvals, f_init, f_trans, f_win, limit=3):
+    """All periodic auxiliary valuations along the lasso `word` (loop starts
+    at `nstem`): init at 0, trans at every step incl. the step back to the
+    loop start, every win condition somewhere in the loop.  Depth-first with
+    pruning; at most `limit` solutions are collected."""
+    n = len(word)
+    na = len(auxvals)
+    # allowed[j][a] = list of b
+    allowed = []
+    for j in range(n):
+        k = j + 1 if j + 1 < n else nstem
+        row = []
+        for a in range(na):
+            e = dict(word[j])
+            e.update(auxvals[a])
+            e.update({x + "'": y for x, y in word[k].items()})
+            ok = []
+            for b in range(na):
+                e2 = dict(e)
+                e2.update({x + "'": y for x, y in auxvals[b].items()})
+                if f_trans(e2):
+                    ok.append(b)
+            row.append(ok)
+        allowed.append(row)
+    sols = []
+
+    def rec(j, seq):
+        if len(sols) >= limit:
+            return
+        if j == n:
+            if seq[nstem] not in allowed[n - 1][seq[n - 1]]:
+                return
+            for fw in f_win:
+                if not any(fw(dict(word[i], **auxvals[seq[i]]))
+                           for i in range(nstem, n)):
+                    return
+            sols.append(tuple(seq))
+            return
+        for b in (allowed[j - 1][seq[j - 1]] if j else range(na)):
+            if j == 0:
+                e0 = dict(word[0])
+                e0.update(auxvals[b])
+                if not f_init(e0):
+                    continue
+            rec(j + 1, seq + [b])
+    rec(0, [])
+    return sols
+
+
+def sem_mixed(t, word, nstem, i, memo):
+    """Past and future operators on the infinite word word[:nstem] .
+    word[nstem:]^omega, at a position i of the representation; the stem is
+    long enough for past subformulas to have become periodic."""
+    key = (id(t), i)
+    if key in memo:
+        return memo[key]
+    n = len(word)
+
+    def reach(j):
+        out = []
+        while j not in out:
+            out.append(j)
+            j = j + 1 if j + 1 < n else nstem
+        return out
+    S = lambda x, j=i: sem_mixed(x, word, nstem, j, memo)  # noqa
+    if isinstance(t, str):
+        r = True if t == 'TRUE' else False if t == 'FALSE' else word[i][t]
+    else:
+        op = fm.CANON.get(t[0], t[0])
+        if op == '~':
+            r = not S(t[1])
+        elif op == '/\\':
+            r = S(t[1]) and S(t[2])
+        elif op == '\\/':
+            r = S(t[1]) or S(t[2])
+        elif op == '=>':
+            r = (not S(t[1])) or S(t[2])
+        elif op == '<=>':
+            r = S(t[1]) == S(t[2])
+        elif op == '-X':
+            r = True if i == 0 else S(t[1], i - 1)
+        elif op == '--X':
+            r = False if i == 0 else S(t[1], i - 1)
+        elif op == '-<>':
+            r = any(S(t[1], j) for j in range(i + 1))
+        elif op == '-[]':
+            r = all(S(t[1], j) for j in range(i + 1))
+        elif op == 'S':
+            r = any(S(t[2], j) and all(S(t[1], k)
+                                       for k in range(j + 1, i + 1))
+                    for j in range(i + 1))
+        elif op == '[]':
+            r = all(S(t[1], j) for j in reach(i))
+        elif op == '<>':
+            r = any(S(t[1], j) for j in reach(i))
+        elif op == 'U':
+            r = False
+            for j in reach(i):
+                if S(t[2], j):
+                    r = True
+                    break
+                if not S(t[1], j):
+                    break
+        else:
+            raise ValueError(op)
+    memo[key] = r
+    return r
+
+
+def run_mixed(case, tree, acc):
+    import omega.logic.past as past
+    s = fm.show(tree)
+    dvars, r, init, trans, win = past.translate(s, until=True)
+    aux = sorted(dvars)
+    f_r = pl.compile_str(r)
+    f_init = pl.compile_str(init) if init.strip() else (lambda e: True)
+    f_trans = pl.compile_str(trans) if trans.strip() else (lambda e: True)
+    f_win = [pl.compile_str(w) for w in win]
+    vals = [dict(p=p, q=q) for p in (False, True) for q in (False, True)]
+    auxvals = [dict(zip(aux, v))
+               for v in itertools.product([False, True], repeat=len(aux))]
+    n = 0
+    for ls in (1, 2, 3):
+        for ns0 in range(0, ls):
+            for w0 in itertools.product(range(4), repeat=ls):
+                n += 1
+                stem = [vals[i] for i in w0[:ns0]]
+                loop = [vals[i] for i in w0[ns0:]]
+                # unroll three passes of the loop into the stem so that the
+                # past testers have become periodic
+                word = stem + loop * 3 + loop
+                nstem = len(stem) + 3 * len(loop)
+                sols = _solutions(word, nstem, auxvals, f_init, f_trans,
+                                  f_win)
+                if len(sols) != 1:
+                    acc.ev(n=n)
+                    acc.violation('auxiliary_valuation_not_unique', case,
+                                  detail=dict(formula=s, stem=stem, loop=loop,
+                                              n_solutions=len(sols),
+                                              init=init,
+                                              trans=' '.join(trans.split()),
+                                              win=win))
+                    return
+                memo = {}
+                for j in range(len(word)):
+                    got = f_r(dict(word[j], **auxvals[sols[0][j]]))
+                    exp = sem_mixed(tree, word, nstem, j, memo)
+                    if got != exp:
+                        acc.ev(n=n)
+                        acc.violation(
+                            'translated_formula_differs_from_semantics',
+                            case, detail=dict(formula=s, translated=r,
+                                              stem=stem, loop=loop,
+                                              position=j, semantics=exp))
+                        return
+    acc.ev(dict(f=s, m=1), nontrivial=True, n=n)
